@@ -265,8 +265,8 @@ impl EventGen for GroupElement {
         // the element as emitted: its box (transform) is computed from evaluated attributes
         let evaluated_el = new_el.clone();
 
-        // push variables onto the stack
-        context.push_element(&self.0);
+        // push variables onto the stack: the attributes as evaluated in the enclosing scope
+        context.push_element(&evaluated_el);
 
         let mut content_bb = None;
         let mut events = OutputList::new();
